@@ -26,4 +26,6 @@ KeyTable == {[id |-> k.id, metric |-> k.metric, ts |-> k.ts,
               stags |-> {<<i, k.stags[i]>> : i \in DOMAIN k.stags}] : k \in MCKeys}
 PrintTables == /\ PrintT(<<"SHAPES", ToJson(ShapeTable)>>)
                /\ PrintT(<<"KEYS", ToJson(KeyTable)>>)
+(* the count/totalCount scaling of every shape is exact in units of 1/DEN *)
+ASSUME ShapesAreExact == \A e \in AllShapes : ShapeExact(e)
 ===============================================================================
